@@ -966,3 +966,35 @@ func init() {
 		Monitors: func() []Monitor { return []Monitor{NewMonC17()} },
 	})
 }
+
+// ---------------------------------------------------------------------------
+// C10: connection isolation
+
+func init() {
+	rids := []string{"t.a", "t.b", "t.{cid}", "t.{cid}", "t.p?u={cid}", "t.p?u=1", "t.u.{cid}.x", "t.c"}
+	register(&SimProp{
+		ID: "C10",
+		Profiles: []*Profile{
+			{Name: "c10-isolation", MinOps: 12, MaxOps: 60, MaxConns: 4, Versions: []string{"1.2.3", "1.2.0", ""}, Protocol: true, Prologue: 60, RIDs: rids,
+				W: weightsWith(map[string]int{"badreq": 0, "burst": 0, "auth": 5, "call": 8, "new": 2, "mutate": 8, "custom": 4, "silent": 0, "sysreset": 2, "qmutate": 0, "qevent": 0,
+					"delete": 1, "reaccess": 3, "token": 14, "tokreset": 8, "httpget": 5, "httppost": 3, "subscribe": 16, "get": 5, "unsubscribe": 5, "close": 2, "connect": 6, "cidevent": 10}),
+				AccessOut: map[string]int{"grant": 14, "calllist": 3, "deny": 2, "denied": 1},
+				GetOut:    map[string]int{"ok": 16, "notfound": 1},
+				CallOut:   map[string]int{"resource": 4, "result": 5, "err": 1},
+				Tokens:    []string{`{"u":1}`, `{"u":2}`, `{"u":3}`, `"tok-a"`, `"tok-b"`, `null`},
+			},
+		},
+		Config: func(t *rapid.T, p *Profile) WorldConfig {
+			return WorldConfig{Protocol: true, Resources: []ResDef{
+				{Name: "t.a", Type: "model", Model: map[string]Val{"x": Prim("1"), "mine": Ref("t.{cid}")}},
+				{Name: "t.b", Type: "collection", Coll: []Val{Prim("1"), Ref("t.a"), Soft("t.{cid}")}},
+				{Name: "t.c", Type: "model", Model: map[string]Val{"y": Prim("2")}},
+				{Name: "t.{cid}", Type: "model", Model: map[string]Val{"owner": Prim(`"me"`)}, PerCID: true},
+				{Name: "t.u.{cid}.x", Type: "collection", Coll: []Val{Prim("7")}, PerCID: true},
+				{Name: "t.p", Type: "model", Model: map[string]Val{"x": Prim("1")}, AnyQuery: true, QueryMap: map[string]string{}},
+			}}
+		},
+		Monitors: func() []Monitor { return []Monitor{NewMonC10(), NewMonC02()} },
+		Trigger:  triggerData,
+	})
+}
